@@ -3,21 +3,12 @@
     changes shape, the corresponding [Lemma] stops checking. *)
 From Coq Require Import List NArith ZArith Bool String Lia.
 From Verif Require Import Lib.Bytes Sni.Wire Sni.WireProofs Gen.WireSchema.
+From Verif Require Export Sni.WireGenDefs.
 Import ListNotations.
 Local Open Scope N_scope.
 
-(** The schemas the current source defines (None if encode and decode sides
-    disagree or contain an unrecognised statement). *)
-Definition gen_schemas_opt : option (list (string * schema)) :=
-  gen_schemas_of gen_enc_fields gen_dec_fields.
-
-Definition gen_schemas : list (string * schema) :=
-  match gen_schemas_opt with Some l => l | None => [] end.
-
 Lemma gen_enc_dec_agree : gen_schemas_opt <> None.
 Proof. vm_compute. discriminate. Qed.
-
-Definition gen_table : request_table := mk_request_table gen_requests gen_schemas.
 
 (** ** Frozen: the deployed protocol is a sub-table of the current one. *)
 
@@ -34,9 +25,14 @@ Proof. vm_compute. reflexivity. Qed.
 Definition opt_schema_eqb (a : option schema) (b : schema) : bool :=
   match a with Some a' => schema_eqb a' b | None => false end.
 
+Definition opt_names_eqb (a : option (list string)) (b : list string) : bool :=
+  match a with Some a' => list_eqb String.eqb a' b | None => false end.
+
 Definition layout_frozenb : bool :=
   forallb (fun ns => opt_schema_eqb (assoc_str (fst ns) gen_schemas) (snd ns))
-    deployed_schemas.
+    deployed_schemas &&
+  forallb (fun ns => opt_names_eqb (assoc_str (fst ns) gen_field_names) (snd ns))
+    deployed_field_names.
 
 Lemma gen_layout_frozen : layout_frozenb = true.
 Proof. vm_compute. reflexivity. Qed.
